@@ -94,7 +94,7 @@ def cases(rng, n, thorough):
         elif kind == "meta":
             mode = rng.choice([0o644, 0o600, 0o640, 0o604, 0o664, 0o666, 0o400, 0o755, 0o750, 0o705, 0o777, 0o444, 0o000 | 0o400])
             owner = rng.choice([None, (1234, 5678), (0, 5678), (1234, 0)])
-            c["files"] = [{"name": "m.txt", "class": "text", "len": 2500, "seed": rng.getrandbits(30), "mode": mode, "mtime": rng.choice([1000000000, 1234567890, 86400 * 365 * 40]), "owner": owner}]
+            c["files"] = [{"name": "m.txt", "class": "text", "len": 2500, "seed": rng.getrandbits(30), "mode": mode, "mtime": rng.choice([1000000000, 1234567890, 86400 * 365 * 40]), "mtime_nsec": rng.choice([0, 1, 123456789, 999999999]), "atime_nsec": rng.choice([0, 987654321, 5]), "owner": owner}]
             c["args"] = ["m.txt"]
             f = rng.random()
             if f < 0.25:
@@ -253,6 +253,9 @@ def judge_c19(case, res):
             want_m = case["files"][0]["mtime"]
             if tgt["mtime"] != want_m:
                 return viol("mtime-not-copied", "target mtime %s, source mtime %s" % (tgt["mtime"], want_m))
+            want_ns = want_m * 10**9 + case["files"][0].get("mtime_nsec", 0)
+            if tgt.get("mtime_ns") != want_ns:
+                return viol("mtime-not-copied", "target mtime %s ns, source mtime %s ns" % (tgt.get("mtime_ns"), want_ns))
         if rc not in (0, 2):
             return viol("exit-status", "metadata problems are warnings at most")
         if not case["faults"] and rc != 0:
